@@ -89,7 +89,7 @@ def metamorphic(ctx, scns_groups, family, fields, why, oracle_name):
                         rep.prop_failures.append(dict(op=d[0], impl=impl, why="%s: op %d field %s: baseline %s, variant %d %s" % (why, d[0], d[1], d[2], gi, d[3]),
                                                       case=scen.enc(scn), baseline=scen.enc(group[0]), family=family, oracle=oracle_name,
                                                       signature=dict(kind=oracle_name), no_shrink=True, replay_with=oracle_name, fields=list(fields)))
-        if len(rep.prop_failures) > 10 or len(rep.disagreements) > 10:
+        if len(rep.prop_failures) > 10 or (len(rep.disagreements) > 10 and not ctx.searching):
             break
 
 
